@@ -54,9 +54,9 @@ def judge_pair(t, kind, scfg, sres, ores, applied, own):
     if not isinstance(own, str): own = canon_ids(own, known)
     if not pyspec.strict_eq(applied['ok'], merged):
         return 'strategy-run-differs-from-relabelled-open-run', {'diff_paths': first_diffs(merged, applied['ok'])}
-    if isinstance(own, str):
+    if isinstance(own, str) and not own.startswith('NA:'):
         return 'own-applier-fails', {'error': own}
-    if not pyspec.strict_eq(own, merged):
+    if not isinstance(own, str) and not pyspec.strict_eq(own, merged):
         return 'strategy-run-differs-from-independently-applied-open-run', {'diff_paths': first_diffs(merged, own)}
     if kind in ('merge', 'mixed'):
         have = S.source_lines(t['b']) | S.source_lines(t['l']) | S.source_lines(t['r'])
@@ -110,6 +110,8 @@ def evaluate(sb, triples, tier, chk=None):
                 jobs.append({'op': 'apply', 'b': t['b'], 'decisions': rel})
                 try:
                     own = S.spec_apply(copy.deepcopy(t['b']), rel)
+                except S.NotApplicable as e:
+                    own = 'NA: %s' % e
                 except Exception as e:
                     own = '%s: %s' % (type(e).__name__, e)
                 meta.append((ti, kind, s, o, sres, ores, own, n))
@@ -137,6 +139,11 @@ def run(tier, seed):
         t1, t1_bad = K.dispatcher_correspondence(chk, sb)
         r = chk.rng
         triples = K.corpus_triples() + K.fixture_triples()[: (10 if tier == 'quick' else 10 ** 6)]
+        cdir = os.path.join(core.VERIF, 'corpus', PROP)
+        if os.path.isdir(cdir):
+            for f in sorted(os.listdir(cdir)):
+                cc = json.load(open(os.path.join(cdir, f)))
+                triples.insert(0, {'b': cc['base'], 'l': cc['local'], 'r': cc['remote'], 'src': 'corpus:' + f})
         n = 150 if tier == 'quick' else 2500
         for i in range(n):
             t = gennb.gen_triple(r, conflict_bias=[0.9, 1.0, 0.7][i % 3])
@@ -153,13 +160,14 @@ def run(tier, seed):
                     # completion is C03's subject; an aborted run gives C10 nothing to compare
                     hist['skipped:' + sig] = hist.get('skipped:' + sig, 0) + 1
                     continue
+                sig = refine(sig, triples[ti], s, detail)       # root causes sharing a generic signature are kept apart
                 fails.setdefault(sig, []).append((ti, kind, s, o, detail))
         for sig, lst in sorted(fails.items()):
             ti, kind, s, o, detail = min(lst, key=lambda x: len(pyspec.canon([triples[x[0]]['b'], triples[x[0]]['l'], triples[x[0]]['r']])))
             small = shrink(sb, triples[ti], kind, s, o, sig, 25 if tier == 'quick' else 80)
             case = {'base': small['b'], 'local': small['l'], 'remote': small['r'], 'kind': kind, 'strategy_config': s, 'open_config': o,
                     'failing_cases_this_run': len(lst)}
-            chk.violation(refine(sig, small, s, detail), case, detail)
+            chk.violation(sig, case, detail)
         chk.cov.update({
             'evaluations': evals, 'distinct_nontrivial': len(nontrivial),
             'rule': 'one evaluation = one (triple, placement of use-X, transients) comparison: strategy run vs open run relabelled and applied twice (nbdime apply_decisions, own applier) + conflict-flag and source-line checks. '
@@ -176,6 +184,20 @@ def run(tier, seed):
 
 
 def refine(sig, t, scfg, detail):
+    """name the known root cause by a predicate over the minimised case"""
+    if sig == 'fabricated-source-line':
+        lines = (detail or {}).get('lines') or []
+        have = S.source_lines(t['b']) | S.source_lines(t['l']) | S.source_lines(t['r'])
+        tails = set()
+        for k in 'blr':
+            for c in t[k].get('cells', []):
+                s = c.get('source', '')
+                parts = pyspec.splitlines_keepends(s)
+                if parts and parts[-1] and parts[-1][-1] not in pyspec.LINESEPS: tails.add(parts[-1])
+        def glued(f):
+            return any(f.startswith(x) and f[len(x):] in have for x in tails if x and len(f) > len(x))
+        if lines and all(glued(f) for f in lines):
+            return 'unterminated-inserted-line-glued-to-next-line'
     return sig
 
 
@@ -224,9 +246,10 @@ def evaluate_one(sb, t, kind, s, o):
         rel, n = S.relabel(ores['ok']['decisions'], S.spec_table(*s[:4]))
         ap = K.run(sb, [{'op': 'apply', 'b': t['b'], 'decisions': rel}], shards=1)[0]
         try: own = S.spec_apply(copy.deepcopy(t['b']), rel)
+        except S.NotApplicable as e: own = 'NA: %s' % e
         except Exception as e: own = '%s: %s' % (type(e).__name__, e)
     sig, detail = judge_pair(t, kind, s, sres, ores, ap, own)
-    return sig
+    return refine(sig, t, s, detail) if sig else sig
 
 
 def replay(path):
